@@ -206,6 +206,14 @@ class Walker:
             return None
         if h == "call":
             q, args = t[1], t[2]
+            if q in ("std::option::Option::is_some", "std::option::Option::is_none", "std::result::Result::is_ok", "std::result::Result::is_err") and args[0][0] == "var" \
+                    and known is not None and isinstance(known.get(args[0][1]), tuple):
+                # the variant of a multiply-assigned local is known on this path (Ok(..)/Err(..)/`?` of an inlined helper)
+                kv = known[args[0][1]][1]
+                if kv in ("Ok", "Some"):
+                    return q.endswith(("is_ok", "is_some"))
+                if kv in ("Err", "None"):
+                    return q.endswith(("is_err", "is_none"))
             if q in ("std::option::Option::is_some", "std::option::Option::is_none"):
                 at = self.atom_of(args[0], ("opt",))
                 if at is not None and at.name not in killed:
